@@ -6,6 +6,7 @@ package core
 import (
 	"crypto/ecdsa"
 	"crypto/sha256"
+	"crypto/sha512"
 	"encoding/binary"
 	"fmt"
 	tmsecp "github.com/tendermint/tendermint/crypto/secp256k1"
@@ -40,6 +41,9 @@ type Account struct {
 	Pub   keys.PublicKey
 	Addr  keys.Address
 	TmKey tmed.PrivKeyEd25519 // only for ED25519 accounts
+	// PreHash: "" or one of SHA224/SHA256/SHA384/SHA512: the account signs the way a hardware wallet does - the
+	// 6-byte tag followed by the ed25519 signature over the hash of the message (ED25519 accounts only)
+	PreHash string
 }
 
 func secretBytes(seed uint64, label string, n int) []byte {
@@ -130,6 +134,28 @@ func (a *Account) Sign(msg []byte) []byte {
 	if a.Algo == keys.ETHSECP && len(msg) != 32 {
 		// go-ethereum signs 32-byte digests only
 		msg = ethcrypto.Keccak256(msg)
+	}
+	if a.Algo == keys.ED25519 && a.PreHash != "" {
+		var d []byte
+		switch a.PreHash {
+		case "SHA224":
+			x := sha256.Sum224(msg)
+			d = x[:]
+		case "SHA256":
+			x := sha256.Sum256(msg)
+			d = x[:]
+		case "SHA384":
+			x := sha512.Sum384(msg)
+			d = x[:]
+		default:
+			x := sha512.Sum512(msg)
+			d = x[:]
+		}
+		sig, err := h.Sign(d)
+		if err != nil {
+			panic(fmt.Sprintf("sign %s: %v", a.Label, err))
+		}
+		return append([]byte(a.PreHash), sig...)
 	}
 	sig, err := h.Sign(msg)
 	if err != nil {
